@@ -62,13 +62,15 @@ instance (st : StreamSt) (len L : Int) : Decidable (ConnOnly st len L) := by unf
 
 /-- Which DATA frames the monitor classifies as beyond the advertised window: the frame is a
 DATA frame on a known stream and its flow-controlled length exceeds the connection window,
-or — when it is delivered to an open stream — the stream window. The error is expected on
-the stream for a server, on the connection (stream 0) for a Transport. -/
+or — when it is delivered to an open stream — the stream window the endpoint ENFORCES,
+`win - short` (`short = 0` except for the known finding `pre-ack-small-stream-window`, see
+`PreAckStatement`). The error is expected on the stream for a server, on the connection
+(stream 0) for a Transport. -/
 theorem excess_iff (m : Mon) (sid : Nat) (len pad : Int) (es : Bool) (t : Nat) :
     (dataAct m sid len pad es).expectFC = some t ↔
       t = fcTarget m sid ∧ ¬ (len < 0 ∨ pad < -1) ∧ ∃ st, findStream m.streams sid = some st ∧
         (if ConnOnly st len (flowLen len pad) then flowLen len pad > m.conn
-         else flowLen len pad ≠ 0 ∧ (flowLen len pad > m.conn ∨ flowLen len pad > st.win)) := by
+         else flowLen len pad ≠ 0 ∧ (flowLen len pad > m.conn ∨ flowLen len pad > st.win - st.short)) := by
   unfold dataAct
   by_cases hv : len < 0 ∨ pad < -1
   · simp [hv]
@@ -80,7 +82,7 @@ theorem excess_iff (m : Mon) (sid : Nat) (len pad : Int) (es : Bool) (t : Nat) :
       have co : ∀ (_ : ConnOnly st len (flowLen len pad)),
           ((connOnlyAct m sid (flowLen len pad)).expectFC = some t ↔
             t = fcTarget m sid ∧ (if ConnOnly st len (flowLen len pad) then flowLen len pad > m.conn
-              else flowLen len pad ≠ 0 ∧ (flowLen len pad > m.conn ∨ flowLen len pad > st.win))) := by
+              else flowLen len pad ≠ 0 ∧ (flowLen len pad > m.conn ∨ flowLen len pad > st.win - st.short))) := by
         intro hc
         unfold connOnlyAct
         by_cases hx : flowLen len pad > m.conn
@@ -119,7 +121,7 @@ theorem excess_iff (m : Mon) (sid : Nat) (len pad : Int) (es : Bool) (t : Nat) :
                 intro _ h1 h2
                 exact hh ⟨h1, h2⟩
               rw [if_neg hh, if_neg hn]
-              by_cases hx : flowLen len pad > m.conn ∨ flowLen len pad > st.win
+              by_cases hx : flowLen len pad > m.conn ∨ flowLen len pad > st.win - st.short
               · rw [if_pos hx]
                 constructor
                 · intro h; exact ⟨(Option.some.inj h).symm, h0, hx⟩
@@ -161,18 +163,19 @@ theorem refused_changes_nothing (m : Mon) (sid : Nat) (len pad : Int) (es : Bool
             by_cases hh : st.isHead = true ∧ len > 0
             · rw [if_pos hh] at h ⊢; exact co h
             · rw [if_neg hh] at h ⊢
-              by_cases hx : flowLen len pad > m.conn ∨ flowLen len pad > st.win
+              by_cases hx : flowLen len pad > m.conn ∨ flowLen len pad > st.win - st.short
               · rw [if_pos hx]
               · rw [if_neg hx] at h; simp [acceptAct] at h
 
 /-- On a live connection a line that does not open a connection is handled by `liveLine`. -/
 theorem lineStep_live (m : Mon) (act : Act) (obs : List Obs) (hs : m.started = true) (hd : m.dead = false)
-    (hr : ∀ c s, act ≠ .reset c s ∧ act ≠ .treset c s) :
+    (hr : ∀ c s, act ≠ .reset c s ∧ act ≠ .treset c s ∧ act ≠ .ereset c s) :
     lineStep m ⟨act, obs⟩ = liveLine m (effAct act obs) obs := by
   unfold lineStep
   cases act with
   | reset c s => exact absurd rfl (hr c s).1
-  | treset c s => exact absurd rfl (hr c s).2
+  | treset c s => exact absurd rfl (hr c s).2.1
+  | ereset c s => exact absurd rfl (hr c s).2.2
   | _ => simp [hs, hd]
 
 /-- **Excess ⇒ FLOW_CONTROL_ERROR.** If the monitor accepts a DATA line whose frame is beyond
@@ -214,7 +217,7 @@ connection-level report is expected (Transport excess), there is no GOAWAY / Con
 with FLOW_CONTROL_ERROR. (Lines on which the connection dies are covered observation by
 observation: `Proofs.FlowMon.obsStep_fc`.) -/
 theorem fc_only_on_excess (m m' : Mon) (act : Act) (obs : List Obs) (sid : Nat)
-    (hs : m.started = true) (hd : m.dead = false) (hr : ∀ c s, act ≠ .reset c s ∧ act ≠ .treset c s)
+    (hs : m.started = true) (hd : m.dead = false) (hr : ∀ c s, act ≠ .reset c s ∧ act ≠ .treset c s ∧ act ≠ .ereset c s)
     (h : lineStep m ⟨act, obs⟩ = .ok m') (hd' : m'.dead = false) :
     (Obs.rst sid errFlowControl ∈ obs → (actStep m (effAct act obs)).expectFC = some sid) ∧
     ((actStep m (effAct act obs)).expectFC ≠ some 0 →
@@ -254,7 +257,7 @@ theorem delivered_le_accepted (pre suf : List Line) (m : Mon) (h : run Mon.init 
     ∃ mp, run Mon.init pre = .ok mp ∧ ∀ s ∈ mp.streams, s.delivered ≤ s.bodyBytes := by
   obtain ⟨mp, h1, _⟩ := run_append pre suf Mon.init m h
   have i := run_inv pre Mon.init mp minv_init h1
-  exact ⟨mp, h1, fun s hs => (i.streams s hs).2⟩
+  exact ⟨mp, h1, fun s hs => (i.streams s hs).2.1⟩
 
 /-! #### non-vacuity: the boundary trace of corpus/C11 (exactly the window is accepted,
 one byte more is refused with FLOW_CONTROL_ERROR), and a trace the monitor rejects. -/
@@ -288,6 +291,75 @@ example : ∃ m, run Mon.init (transportBoundary ++ [⟨.data 3 1 (-1) false, [.
 example : run Mon.init (transportBoundary ++ [⟨.data 3 1 (-1) false, [.closed]⟩]) = .error "excess-data-not-refused" := rfl
 example : run Mon.init (transportBoundary.take 4 ++ [⟨.data 3 3616 (-1) false, [.connerr 3, .closed]⟩]) =
     .error "flow-control-error-within-window" := rfl
+
+/-! #### stream window before the SETTINGS ACK (known finding `pre-ack-small-stream-window`) -/
+
+/-- The statement of C11 for stream windows: a DATA frame that is delivered to an open stream
+and fits the connection window and the stream window ADVERTISED to the peer (`win`: the
+protocol default 65535 until the peer has acknowledged a smaller SETTINGS_INITIAL_WINDOW_SIZE)
+is never refused. -/
+def PreAckStatement : Prop :=
+  ∀ (m : Mon) (sid : Nat) (len pad : Int) (es : Bool) (st : StreamSt),
+    findStream m.streams sid = some st → ¬ ConnOnly st len (flowLen len pad) → ¬ (len < 0 ∨ pad < -1) →
+    flowLen len pad ≤ m.conn → flowLen len pad ≤ st.win →
+    (dataAct m sid len pad es).expectFC = none
+
+/-- Server configured with a 1000-byte stream window; the client opens stream 1 before it has
+acknowledged the server's SETTINGS (corpus/C11/preack.rigs.ops, recorded from the real server). -/
+def preAckTrace : List Line :=
+  [⟨.ereset 65535 1000, [.set 1000, .other]⟩,
+   ⟨.hdr 1 (-1) false, []⟩]
+
+def mPreAck : Mon :=
+  match run Mon.init preAckTrace with
+  | .ok m => m
+  | .error _ => Mon.init
+
+/-- **C11.pre_ack_statement_false.** 2000 bytes on stream 1 are within the advertised 65535 but the
+server (as modelled, and as it is) refuses them with FLOW_CONTROL_ERROR. -/
+theorem pre_ack_statement_false : ¬ PreAckStatement := by
+  intro h
+  have hf : ∃ st, findStream mPreAck.streams 1 = some st ∧ st.win = 65535 ∧ st.short = 64535 := ⟨_, rfl, rfl, rfl⟩
+  obtain ⟨st, h1, h2, h3⟩ := hf
+  have := h mPreAck 1 2000 (-1) true st h1 (by
+      have hs : st.status = .open_ ∧ st.declCL = -1 ∧ st.isHead = false := by
+        have : findStream mPreAck.streams 1 = some ⟨1, .open_, 65535, -1, 0, 0, false, false, false, 64535⟩ := rfl
+        rw [h1] at this
+        cases this
+        exact ⟨rfl, rfl, rfl⟩
+      unfold ConnOnly
+      simp [hs.1, hs.2.1, hs.2.2])
+    (by decide) (by decide) (by rw [h2]; decide)
+  have e : (dataAct mPreAck 1 2000 (-1) true).expectFC = some 1 := rfl
+  rw [e] at this
+  cases this
+
+/-- **C11.pre_ack_holds_partial.** Outside the excluded region (`short = 0`: the peer has acknowledged
+the SETTINGS, or the configured window is at least 65535) the statement holds: a delivered frame
+within the connection window and the advertised stream window is never refused. -/
+theorem pre_ack_holds_partial (m : Mon) (sid : Nat) (len pad : Int) (es : Bool) (st : StreamSt)
+    (hf : findStream m.streams sid = some st) (hc : ¬ ConnOnly st len (flowLen len pad))
+    (hv : ¬ (len < 0 ∨ pad < -1)) (h1 : flowLen len pad ≤ m.conn) (h2 : flowLen len pad ≤ st.win)
+    (hs : st.short = 0) : (dataAct m sid len pad es).expectFC = none := by
+  cases he : (dataAct m sid len pad es).expectFC with
+  | none => rfl
+  | some t =>
+    have := (excess_iff m sid len pad es t).mp he
+    obtain ⟨_, _, st', hf', hx⟩ := this
+    rw [hf] at hf'
+    cases hf'
+    rw [if_neg hc, hs] at hx
+    omega
+
+/-- After the acknowledgement no stream is in the excluded region. -/
+theorem ack_clears_short (m : Mon) (h : m.acked = false) :
+    ∀ s ∈ (actStep m .ack).m.streams, s.short = 0 := by
+  simp only [actStep, h]
+  intro s hs
+  simp only [Bool.false_eq_true, if_false, List.mem_map] at hs
+  obtain ⟨a, _, e⟩ := hs
+  subst e
+  rfl
 
 /-! #### literal wire reading for the Transport (known finding `transport-goaway-not-flushed`) -/
 
